@@ -236,7 +236,7 @@ def run(ck, facts, tier):
         ck._c11_c12_nested = True
         try:
             nd_, tb_ = list(ck.not_decided), list(ck.trusted)
-            with ck.restrict({"R11.4"}):
+            with ck.restrict({"R11.4", "R11.7"}):          # R11.7: first_key() (the index-value guard) and keys() are the first / all keys for every kind
                 c11.run(ck, facts, tier)
             ck.not_decided[:], ck.trusted[:] = nd_, tb_
         finally:
